@@ -23,10 +23,13 @@
 //	target-violates-label-constraints/<src>  the store matches no rule the new peer could belong to
 //	peers-lowered/<src>                      a peer is removed without replacement while voters <= configured / rules unsatisfiable without it
 //	healthy-peers-lowered/<src>              same for the number of healthy peers
-//	remove-before-add/<src>                  a replacement removes the old peer before the new one is added and caught up
+//	remove-before-add:old=<role>,new=<role>,joint=<on|off>/<src>
+//	                                         a replacement removes the old peer before the new one is added and caught up
 //	no-repair/<src>                          fewer peers than required, a fresh empty allowed up store exists, nothing proposed
 //	no-repair:shadowed-by-temporarily-unusable-store/<src>
-//	                                         same, and the only reason is a better isolated store that is temporarily unusable
+//	                                         same, and an operator is proposed as soon as the temporarily unusable stores
+//	                                         (disconnected, busy, limits) are taken away: a better isolated store that is
+//	                                         only temporarily unusable keeps pd from repairing
 //	exec:<what>:<Step>/<src>                 the simulated store refuses a step / a step never finishes
 //	panic
 package main
@@ -667,48 +670,48 @@ func (w *world) repairCandidate(r *regionsim.Region) (cand uint64, why string) {
 	return 0, ""
 }
 
-// shadowed: no operator although a candidate exists. Is there a store that is
-// only temporarily unusable (disconnected / busy / limits) and strictly better
-// isolated than every fully usable candidate? (pd picks the best isolated stores
-// ignoring temporary states and only then drops the temporarily unusable ones.)
-func (w *world) shadowed(r *regionsim.Region) bool {
-	in := w.in
-	labels := labelCfg[in.Labels]
-	if len(labels) == 0 {
+// propose calls the real code under test.
+func propose(e *env, src string, info *core.RegionInfo) []*operator.Operator {
+	switch src {
+	case "replica-checker":
+		return []*operator.Operator{checker.NewReplicaChecker(e.cl, cache.NewDefaultCache(16)).Check(info)}
+	case "rule-checker":
+		return []*operator.Operator{checker.NewRuleChecker(e.cl, e.cl.RuleManager, cache.NewDefaultCache(16)).Check(info)}
+	}
+	// a new controller per call: the rule checker inside keeps counters between calls
+	ctx, cancel := context.WithCancel(e.ctx)
+	defer cancel()
+	return schedule.NewCheckerController(ctx, e.cl, e.cl.RuleManager, e.oc).CheckRegion(info)
+}
+
+// shadowed classifies a missing repair by a counterfactual run of the real
+// code: the stores that are unusable only temporarily (disconnected, busy,
+// limits) and hold no peer are turned into down stores; if an operator is
+// proposed then, the only reason for the missing repair was that pd first picks
+// the best isolated stores ignoring temporary conditions and only afterwards
+// drops the temporarily unusable ones.
+func shadowed(e *env, in *input, src string, r *regionsim.Region) bool {
+	mod := *in
+	mod.Stores = append([]storeSpec(nil), in.Stores...)
+	changed := false
+	for i := range mod.Stores {
+		s := &mod.Stores[i]
+		if s.Peer == pNone && s.State == stUp && s.HB != hbDown && !s.Low && s.Use == 0 && (s.HB == hbDisconnected || s.Tmp != 0) {
+			s.HB, s.Tmp = hbDown, tmpNone
+			changed = true
+		}
+	}
+	if !changed {
 		return false
 	}
-	score := func(id uint64) int {
-		// smaller = better isolated: number of location levels shared with the closest peer, summed
-		sc := 0
-		for _, p := range r.Peers {
-			for _, l := range labels {
-				// pd's isolation score treats a missing label as "same location"
-				if a, b := w.labels[id][l], w.labels[p.Store][l]; a != "" && b != "" && a != b {
-					break
-				}
-				sc += 1000
-				if l == labels[len(labels)-1] {
-					sc += 1000
-				}
-			}
-		}
-		return sc
-	}
-	bestUsable, bestTemp := 1<<30, 1<<30
-	for i, s := range in.Stores {
-		id := in.id(i)
-		if r.StorePeer(id) != nil || s.State != stUp || s.HB == hbDown || s.Low || s.Use != 0 {
-			continue
-		}
-		if s.HB == hbDisconnected || s.Tmp != 0 {
-			if sc := score(id); sc < bestTemp {
-				bestTemp = sc
-			}
-		} else if sc := score(id); sc < bestUsable {
-			bestUsable = sc
+	putStores(e, &mod)
+	defer putStores(e, in)
+	for _, op := range propose(e, src, r.Info()) {
+		if op != nil {
+			return true
 		}
 	}
-	return bestTemp < bestUsable
+	return false
 }
 
 // ---------------------------------------------------------------- execution of an operator on the simulator
@@ -723,6 +726,7 @@ type counters struct {
 	Skipped    int64             `json:"skipped"`
 	States     int64             `json:"states"`
 	RandRuns   int64             `json:"rand_runs"`
+	RandCapped int64             `json:"rand_capped"`
 	RepairDue  int64             `json:"repair_due"`
 	IsoChecked int64             `json:"isolation_checked"`
 	IsoSkipped int64             `json:"isolation_skipped_surplus"`
@@ -742,6 +746,16 @@ func newCounters() *counters {
 
 func stepType(s operator.OpStep) string {
 	return strings.TrimPrefix(fmt.Sprintf("%T", s), "operator.")
+}
+
+func roleOf(p *regionsim.Peer) string {
+	switch {
+	case p == nil:
+		return "none"
+	case p.Role == metapb.PeerRole_Learner:
+		return "learner"
+	}
+	return "voter"
 }
 
 func addTarget(s operator.OpStep) (store, peerID uint64, ok bool) {
@@ -798,9 +812,18 @@ func (rn *runner) execute(w *world, src string, op *operator.Operator, r0 *regio
 	added := map[uint64]uint64{} // store -> peer id
 	removed := 0
 	hasAdd := false
+	newRole := "learner" // role the added peer ends with
 	for i := 0; i < op.Len(); i++ {
 		if _, _, ok := addTarget(op.Step(i)); ok {
 			hasAdd = true
+		}
+		switch st := op.Step(i).(type) {
+		case operator.AddPeer, operator.AddLightPeer, operator.PromoteLearner:
+			newRole = "voter"
+		case operator.ChangePeerV2Enter:
+			if len(st.PromoteLearners) > 0 {
+				newRole = "voter"
+			}
 		}
 	}
 	// after: evaluated on every region state the execution goes through
@@ -853,12 +876,13 @@ func (rn *runner) execute(w *world, src string, op *operator.Operator, r0 *regio
 			removed++
 			if hasAdd {
 				// a replacement: the new peer must be there and caught up before the old one goes
+				class := fmt.Sprintf("remove-before-add:old=%s,new=%s,joint=%s", roleOf(r.StorePeer(rm.FromStore)), newRole, map[bool]string{false: "on", true: "off"}[in.NoJoint])
 				if len(added) == 0 {
-					return bad("remove-before-add", "%s removes the peer on store %d before the replacement is added", at, rm.FromStore)
+					return bad(class, "%s removes the peer on store %d before the replacement is added", at, rm.FromStore)
 				}
 				for st, pid := range added {
 					if p := r.PeerByID(pid); p == nil || r.Pending[pid] {
-						return bad("remove-before-add", "%s removes the peer on store %d while the replacement on store %d has not caught up", at, rm.FromStore, st)
+						return bad(class, "%s removes the peer on store %d while the replacement on store %d has not caught up", at, rm.FromStore, st)
 					}
 				}
 			}
@@ -989,7 +1013,7 @@ func (rn *runner) evalOnce(e *env, in *input, w *world) (v *violation, proposed 
 			rn.logf("  %s proposes nothing", src)
 			if cand != 0 {
 				key := "no-repair"
-				if w.shadowed(r) {
+				if shadowed(e, in, src, r) {
 					key = "no-repair:shadowed-by-temporarily-unusable-store"
 				}
 				return &violation{Key: key + "/" + src, Msg: fmt.Sprintf("%s proposes nothing for region %s although %s and store %d is a fresh, empty, allowed up store", src, r, why, cand)}
@@ -997,24 +1021,14 @@ func (rn *runner) evalOnce(e *env, in *input, w *world) (v *violation, proposed 
 		}
 		return nil
 	}
-	info := r.Info()
-	if in.Rules == rulesOff {
-		rc := checker.NewReplicaChecker(e.cl, cache.NewDefaultCache(16))
-		if v := check("replica-checker", []*operator.Operator{rc.Check(info)}); v != nil {
-			return v, proposed
-		}
-	} else {
-		rc := checker.NewRuleChecker(e.cl, e.cl.RuleManager, cache.NewDefaultCache(16))
-		if v := check("rule-checker", []*operator.Operator{rc.Check(info)}); v != nil {
-			return v, proposed
-		}
+	direct := "replica-checker"
+	if in.Rules != rulesOff {
+		direct = "rule-checker"
 	}
-	ctx, cancel := context.WithCancel(e.ctx)
-	cc := schedule.NewCheckerController(ctx, e.cl, e.cl.RuleManager, e.oc)
-	ops := cc.CheckRegion(r.Info())
-	cancel()
-	if v := check("check-region", ops); v != nil {
-		return v, proposed
+	for _, src := range []string{direct, "check-region"} {
+		if v := check(src, propose(e, src, r.Info())); v != nil {
+			return v, proposed
+		}
 	}
 	return nil, proposed
 }
@@ -1025,14 +1039,16 @@ func (rn *runner) eval(e *env, in *input) *violation {
 	w := newWorld(in)
 	var v *violation
 	proposed := false
-	enum.All(256, func() {
+	if n := enum.All(256, func() {
 		rn.cnt.RandRuns++
 		v1, p1 := rn.evalOnce(e, in, w)
 		proposed = proposed || p1
 		if v1 != nil && v == nil {
 			v = v1
 		}
-	})
+	}); n < 0 {
+		rn.cnt.RandCapped++
+	}
 	if proposed {
 		rn.cnt.Proposing++
 	}
@@ -1047,7 +1063,8 @@ func (rn *runner) eval(e *env, in *input) *violation {
 // rule names them, the two shared hosts of a zone can be swapped.
 type scopeSpec struct {
 	name, tiers, desc string
-	n                 []int // numbers of stores
+	weight            float64 // expected number of inputs in millions (share of the time budget)
+	n                 []int   // numbers of stores
 	maxReplicas       []int
 	labelIso          [][2]int // (labels, isolation) pairs
 	rules             []int
@@ -1433,61 +1450,88 @@ func scopes() []*scopeSpec {
 	mr15 := []int{1, 2, 3, 4, 5}
 	zoneIso := [][2]int{{0, 0}, {1, 0}, {1, 1}}
 	return []*scopeSpec{
-		{name: "t1", tiers: "exp", n: []int{4}, maxReplicas: []int{3}, labelIso: [][2]int{{1, 1}}, rules: []int{rulesOff}, zones: 3,
-			goods: []cond{fresh}, first: cat(allHealthCombos(), tempFaults, useFaults), others: cat(singleFaults, tempFaults[:2]), maxBad: 2, maxPeers: 4, learners: true, maxFlags: 1, noJoint: f, desc_: f},
-		{name: "t1b", tiers: "exp", n: []int{4}, maxReplicas: []int{3}, labelIso: [][2]int{{1, 1}}, rules: []int{rulesOff}, zones: 3,
-			goods: []cond{fresh}, first: cat(allHealthCombos(), tempFaults, useFaults), others: cat(singleFaults, tempFaults[:2]), maxBad: 2, maxPeers: 4, learners: true, maxFlags: 2, leaderFlags: true, noJoint: f, desc_: f},
-		{name: "t2", tiers: "exp", n: []int{3}, maxReplicas: []int{3}, labelIso: [][2]int{{1, 1}}, rules: []int{rulesOff}, zones: 3,
-			goods: []cond{fresh}, first: cat(allHealthCombos(), tempFaults, useFaults), others:  cat(allHealthCombos(), tempFaults, useFaults), maxBad: 3, maxPeers: 3, learners: true, maxFlags: 2, leaderFlags: true, noJoint: f, desc_: f},
-		{name: "t4", tiers: "exp", n: []int{5}, maxReplicas: []int{3}, labelIso: [][2]int{{2, 1}}, rules: []int{rulesOff}, zones: 2, hosts: true,
-			goods: []cond{fresh}, first: cat(singleFaults, tempFaults[:1]), others: singleFaults, maxBad: 2, maxPeers: 4, learners: false, maxFlags: 1, noJoint: f, desc_: f},
-		{name: "t5", tiers: "exp", n: []int{4}, maxReplicas: []int{3}, labelIso: [][2]int{{1, 1}}, rules: []int{rulesOff}, zones: 3, nolabel: true,
-			goods: []cond{fresh, loaded}, first: cat(singleFaults, tempFaults[:1]), others: singleFaults, maxBad: 2, maxPeers: 4, learners: true, maxFlags: 1, noJoint: f, desc_: f},
-		{name: "t7", tiers: "exp", n: []int{5}, maxReplicas: []int{3}, labelIso: [][2]int{{1, 1}}, rules: []int{rulesDisjoint}, zones: 3,
-			goods: []cond{fresh}, first: cat(singleFaults, tempFaults[:2], useFaults[:1]), maxBad: 1, maxPeers: 4, learners: true, maxFlags: 1, noJoint: f, desc_: f},
-		{name: "t7b", tiers: "exp", n: []int{5}, maxReplicas: []int{3}, labelIso: [][2]int{{1, 1}}, rules: []int{rulesDefault}, zones: 3,
-			goods: []cond{fresh}, first: cat(singleFaults, tempFaults[:2], useFaults[:1]), maxBad: 1, maxPeers: 4, learners: true, maxFlags: 1, noJoint: f, desc_: f},
-		{name: "t8", tiers: "exp", n: []int{5}, maxReplicas: []int{2}, labelIso: [][2]int{{2, 2}}, rules: []int{rulesDisjoint}, zones: 3, hosts: true,
-			goods: []cond{fresh}, first: singleFaults, maxBad: 1, maxPeers: 4, learners: true, maxFlags: 0, noJoint: f, desc_: f},
-		{name: "t8b", tiers: "exp", n: []int{4}, maxReplicas: []int{2}, labelIso: [][2]int{{2, 2}}, rules: []int{rulesDisjoint}, zones: 3, hosts: true,
-			goods: []cond{fresh}, first: singleFaults, maxBad: 1, maxPeers: 4, learners: true, maxFlags: 1, noJoint: f, desc_: f},
-		{name: "t9", tiers: "exp", n: []int{4}, maxReplicas: []int{3}, labelIso: [][2]int{{1, 1}}, rules: []int{rulesDisjoint}, zones: 3,
-			goods: []cond{fresh}, first: cat(allHealthCombos(), tempFaults, useFaults), others: singleFaults, maxBad: 2, maxPeers: 4, learners: true, maxFlags: 1, noJoint: f, desc_: f},
-		{name: "replica/4stores/1bad", tiers: "quick",
+		{name: "replica/4stores/1bad", tiers: "quick", weight: 0.5,
 			desc: "replica checker + CheckRegion, 4 stores in <=3 zones (own hosts), max-replicas 1..5 x {no labels, [zone], [zone]+isolation zone}; <=1 not-good store with any state x heartbeat x space combination, a temporary condition (busy, add-peer limit, snapshots, pending peers) or a specialUse label; region <=4 peers with learners, <=1 peer down or pending",
 			n:    []int{4}, maxReplicas: mr15, labelIso: zoneIso, rules: []int{rulesOff}, zones: 3,
 			goods: []cond{fresh}, first: cat(allHealthCombos(), tempFaults, useFaults), maxBad: 1,
 			maxPeers: 4, learners: true, maxFlags: 1, noJoint: f, desc_: f},
-		{name: "replica/4stores/2bad", tiers: "quick",
+		{name: "replica/4stores/2bad", tiers: "quick", weight: 0.9,
 			desc: "as before with max-replicas 2..4 and <=2 not-good stores: one single fault (offline, tombstone, disconnected, down, low space) or busy / add-peer limit, the other a single fault",
 			n:    []int{4}, maxReplicas: []int{2, 3, 4}, labelIso: zoneIso, rules: []int{rulesOff}, zones: 3,
 			goods: []cond{fresh}, first: cat(singleFaults, tempFaults[:2]), others: singleFaults, maxBad: 2,
 			maxPeers: 4, learners: true, maxFlags: 1, noJoint: f, desc_: f},
-		{name: "replica/5stores", tiers: "quick",
-			desc: "5 stores in <=3 zones, max-replicas 1..5 x {no labels, [zone], [zone]+isolation zone}; <=1 not-good store (single fault or busy); region <=4 peers with learners, <=1 down or pending",
+		{name: "replica/5stores", tiers: "quick", weight: 0.72,
+			desc: "5 stores in <=3 zones, max-replicas 1..5 x {no labels, [zone], [zone]+isolation zone}; <=1 not-good store (single fault or busy); region <=4 peers with learners, <=1 down or pending; joint consensus on/off",
 			n:    []int{5}, maxReplicas: mr15, labelIso: zoneIso, rules: []int{rulesOff}, zones: 3,
 			goods: []cond{fresh}, first: cat(singleFaults, tempFaults[:1]), maxBad: 1,
-			maxPeers: 4, learners: true, maxFlags: 1, noJoint: f, desc_: f},
-		{name: "replica/hosts", tiers: "quick",
+			maxPeers: 4, learners: true, maxFlags: 1, noJoint: ft, desc_: f},
+		{name: "replica/hosts", tiers: "quick", weight: 0.15,
 			desc: "4 stores on shared hosts (2 zones x 2 hosts), location labels [zone host] x isolation {none, zone, host}, max-replicas 2..4; <=1 not-good store (single fault or busy); region <=3 voters, <=1 down or pending; joint consensus on/off; ascending and descending store ids",
 			n:    []int{4}, maxReplicas: []int{2, 3, 4}, labelIso: [][2]int{{2, 0}, {2, 1}, {2, 2}}, rules: []int{rulesOff}, zones: 2, hosts: true,
 			goods: []cond{fresh}, first: cat(singleFaults, tempFaults[:1]), maxBad: 1,
 			maxPeers: 3, learners: false, maxFlags: 1, noJoint: ft, desc_: ft},
-		{name: "replica/loaded+nolabel", tiers: "quick",
+		{name: "replica/loaded+nolabel", tiers: "quick", weight: 0.4,
 			desc: "4 stores in <=2 zones or without labels, each good store empty or holding 40 regions; max-replicas 2..3 x {[zone], [zone]+isolation zone}; <=1 single-fault store; region <=3 peers with learners, <=1 down or pending",
 			n:    []int{4}, maxReplicas: []int{2, 3}, labelIso: [][2]int{{1, 0}, {1, 1}}, rules: []int{rulesOff}, zones: 2, nolabel: true,
 			goods: []cond{fresh, loaded}, first: singleFaults, maxBad: 1,
 			maxPeers: 3, learners: true, maxFlags: 1, noJoint: f, desc_: f},
-		{name: "rules/4stores/1bad", tiers: "quick",
+		{name: "rules/4stores/1bad", tiers: "quick", weight: 0.9,
 			desc: "rule checker + CheckRegion with rule sets default-rule / voters(z1|z2)+learner(z3) / voters(any)+learner(z3) / voters(!z3)+voter(z3); 4 stores in 3 zones, count 1..3 x {no labels, [zone], [zone]+isolation zone}; <=1 not-good store (single fault, busy, add-peer limit, specialUse); region <=4 peers with learners, <=1 down or pending",
 			n:    []int{4}, maxReplicas: []int{1, 2, 3}, labelIso: zoneIso, rules: []int{rulesDefault, rulesDisjoint, rulesOverlap, rulesNotIn}, zones: 3,
 			goods: []cond{fresh}, first: cat(singleFaults, tempFaults[:2], useFaults[:1]), maxBad: 1,
 			maxPeers: 4, learners: true, maxFlags: 1, noJoint: f, desc_: f},
-		{name: "rules/4stores/2bad", tiers: "quick",
-			desc: "rule set voters(z1|z2)+learner(z3) with count 2, [zone]+isolation zone; <=2 not-good stores (single fault / busy / add-peer limit / specialUse + offline / tombstone / disconnected / down)",
+		{name: "rules/4stores/2bad", tiers: "quick", weight: 0.62,
+			desc: "rule set voters(z1|z2)+learner(z3) with count 2, [zone]+isolation zone; <=2 not-good stores (single fault / busy / add-peer limit / specialUse + offline / tombstone / disconnected / down); joint consensus on/off",
 			n:    []int{4}, maxReplicas: []int{2}, labelIso: [][2]int{{1, 1}}, rules: []int{rulesDisjoint}, zones: 3,
 			goods: []cond{fresh}, first: cat(singleFaults, tempFaults[:2], useFaults[:1]), others: singleFaults[:4], maxBad: 2,
+			maxPeers: 4, learners: true, maxFlags: 1, noJoint: ft, desc_: f},
+		// thorough
+		{name: "replica/4stores/2bad-all", tiers: "thorough", weight: 8.5,
+			desc: "replica checker + CheckRegion, 4 stores in <=3 zones, max-replicas 1..5 x {no labels, [zone], [zone]+isolation zone}; <=2 not-good stores: one with any state x heartbeat x space combination / temporary condition / specialUse label, the other a single fault or busy / add-peer limit; region <=4 peers with learners, <=1 peer down or pending",
+			n:    []int{4}, maxReplicas: mr15, labelIso: zoneIso, rules: []int{rulesOff}, zones: 3,
+			goods: []cond{fresh}, first: cat(allHealthCombos(), tempFaults, useFaults), others: cat(singleFaults, tempFaults[:2]), maxBad: 2,
 			maxPeers: 4, learners: true, maxFlags: 1, noJoint: f, desc_: f},
+		{name: "replica/4stores/flags", tiers: "thorough", weight: 3.9,
+			desc: "4 stores in <=3 zones, max-replicas 1..5 x {no labels, [zone], [zone]+isolation zone}; <=1 not-good store (any combination); region <=4 peers with learners, <=2 peers down or pending including the leader; joint consensus on/off",
+			n:    []int{4}, maxReplicas: mr15, labelIso: zoneIso, rules: []int{rulesOff}, zones: 3,
+			goods: []cond{fresh}, first: cat(allHealthCombos(), tempFaults, useFaults), maxBad: 1,
+			maxPeers: 4, learners: true, maxFlags: 2, leaderFlags: true, noJoint: ft, desc_: f},
+		{name: "replica/5stores/2bad", tiers: "thorough", weight: 5.9,
+			desc: "5 stores in <=3 zones, max-replicas 1..5 x {no labels, [zone], [zone]+isolation zone}; <=2 single-fault stores; region <=4 peers with learners, <=1 down or pending; ascending and descending store ids",
+			n:    []int{5}, maxReplicas: mr15, labelIso: zoneIso, rules: []int{rulesOff}, zones: 3,
+			goods: []cond{fresh}, first: singleFaults, others: singleFaults, maxBad: 2,
+			maxPeers: 4, learners: true, maxFlags: 1, noJoint: f, desc_: ft},
+		{name: "replica/hosts/5stores", tiers: "thorough", weight: 6.5,
+			desc: "5 stores on shared hosts (2 zones x 2 hosts), location labels [zone host] x isolation {none, zone, host}, max-replicas 2..4; <=2 not-good stores (single fault or busy + single fault); region <=4 voters, <=1 down or pending; joint consensus on/off; ascending and descending store ids",
+			n:    []int{5}, maxReplicas: []int{2, 3, 4}, labelIso: [][2]int{{2, 0}, {2, 1}, {2, 2}}, rules: []int{rulesOff}, zones: 2, hosts: true,
+			goods: []cond{fresh}, first: cat(singleFaults, tempFaults[:1]), others: singleFaults, maxBad: 2,
+			maxPeers: 4, learners: false, maxFlags: 1, noJoint: ft, desc_: ft},
+		{name: "replica/loaded+nolabel", tiers: "thorough", weight: 11.1,
+			desc: "4 stores in <=3 zones or without labels, each good store empty or holding 40 regions; max-replicas 2..4 x {no labels, [zone], [zone]+isolation zone}; <=2 not-good stores (single fault or busy + single fault); region <=4 peers with learners, <=1 down or pending",
+			n:    []int{4}, maxReplicas: []int{2, 3, 4}, labelIso: zoneIso, rules: []int{rulesOff}, zones: 3, nolabel: true,
+			goods: []cond{fresh, loaded}, first: cat(singleFaults, tempFaults[:1]), others: singleFaults, maxBad: 2,
+			maxPeers: 4, learners: true, maxFlags: 1, noJoint: f, desc_: f},
+		{name: "rules/4stores/2bad", tiers: "thorough", weight: 16.7,
+			desc: "rule checker + CheckRegion with the four rule sets; 4 stores in 3 zones, count 1..3 x {no labels, [zone], [zone]+isolation zone}; <=2 not-good stores (single fault / busy / add-peer limit / specialUse + offline / tombstone / disconnected / down); region <=4 peers with learners, <=1 down or pending; ascending and descending store ids",
+			n:    []int{4}, maxReplicas: []int{1, 2, 3}, labelIso: zoneIso, rules: []int{rulesDefault, rulesDisjoint, rulesOverlap, rulesNotIn}, zones: 3,
+			goods: []cond{fresh}, first: cat(singleFaults, tempFaults[:2], useFaults[:1]), others: singleFaults[:4], maxBad: 2,
+			maxPeers: 4, learners: true, maxFlags: 1, noJoint: f, desc_: ft},
+		{name: "rules/5stores/1bad", tiers: "thorough", weight: 2.6,
+			desc: "the four rule sets, 5 stores in 3 zones, count 1..3 x {no labels, [zone], [zone]+isolation zone}; <=1 not-good store (single fault / busy / add-peer limit / specialUse); region <=4 peers with learners, <=1 down or pending",
+			n:    []int{5}, maxReplicas: []int{1, 2, 3}, labelIso: zoneIso, rules: []int{rulesDefault, rulesDisjoint, rulesOverlap, rulesNotIn}, zones: 3,
+			goods: []cond{fresh}, first: cat(singleFaults, tempFaults[:2], useFaults[:1]), maxBad: 1,
+			maxPeers: 4, learners: true, maxFlags: 1, noJoint: f, desc_: f},
+		{name: "rules/hosts", tiers: "thorough", weight: 3.0,
+			desc: "rule sets default-rule / voters(z1|z2)+learner(z3) / voters(!z3)+voter(z3) with location labels [zone host] x isolation {none, zone, host}, count 1..3; 4 stores on shared hosts (3 zones x 2 hosts); <=1 single-fault store; region <=4 peers with learners, <=1 down or pending; joint consensus on/off",
+			n:    []int{4}, maxReplicas: []int{1, 2, 3}, labelIso: [][2]int{{2, 0}, {2, 1}, {2, 2}}, rules: []int{rulesDefault, rulesDisjoint, rulesNotIn}, zones: 3, hosts: true,
+			goods: []cond{fresh}, first: singleFaults, maxBad: 1,
+			maxPeers: 4, learners: true, maxFlags: 1, noJoint: ft, desc_: f},
+		// the largest scope runs last and may use all the remaining time
+		{name: "replica/3stores/all", tiers: "thorough", weight: 36,
+			desc: "3 stores in <=3 zones, every store with any state x heartbeat x space combination / temporary condition / specialUse label; max-replicas 1..3 x {no labels, [zone], [zone]+isolation zone}; region <=3 peers with learners, <=2 peers down or pending including the leader",
+			n:    []int{3}, maxReplicas: []int{1, 2, 3}, labelIso: zoneIso, rules: []int{rulesOff}, zones: 3,
+			goods: []cond{fresh}, first: cat(allHealthCombos(), tempFaults, useFaults), others: cat(allHealthCombos(), tempFaults, useFaults), maxBad: 3,
+			maxPeers: 3, learners: true, maxFlags: 2, leaderFlags: true, noJoint: f, desc_: f},
 	}
 }
 
@@ -1584,6 +1628,7 @@ func merge(dst, src *counters) {
 	dst.Skipped += src.Skipped
 	dst.States += src.States
 	dst.RandRuns += src.RandRuns
+	dst.RandCapped += src.RandCapped
 	dst.RepairDue += src.RepairDue
 	dst.IsoChecked += src.IsoChecked
 	dst.IsoSkipped += src.IsoSkipped
@@ -1697,8 +1742,12 @@ func main() {
 	}
 	deadline := time.Now().Add(time.Duration(*budget) * time.Second)
 	for i, sc := range scs {
-		remain := time.Until(deadline)
-		dl := time.Now().Add(remain / time.Duration(len(scs)-i))
+		// the remaining time is shared in proportion to the expected sizes
+		rest := 0.0
+		for _, o := range scs[i:] {
+			rest += o.weight
+		}
+		dl := time.Now().Add(time.Duration(float64(time.Until(deadline)) * sc.weight / rest))
 		start := time.Now()
 		n := *nworkers
 		results := make([]*result, n)
@@ -1745,6 +1794,10 @@ func main() {
 			}
 		}
 		merge(total, tot)
+		if tot.RandCapped > 0 {
+			cov.Exhaustive = false
+			cov.CapsHit = append(cov.CapsHit, fmt.Sprintf("scope %s: %d inputs with more than 256 outcomes of the random draws", sc.name, tot.RandCapped))
+		}
 		if !complete {
 			cov.Exhaustive = false
 			cov.CapsHit = append(cov.CapsHit, fmt.Sprintf("scope %s: time budget reached after %d inputs", sc.name, tot.Inputs))
